@@ -2,11 +2,19 @@
   C06 — linear system solving. The verdict and the solution returned by `mzd_solve_left` / `mzd_pluq_solve_left`
   are judged per run by `check_solve` (driver): verdict = `solvable A B` and, when 0, `Apad·X = B₀` recomputed with
   the specification product. Proved: `solvable A B = true ↔ ∃ X, Apad·X = B` relative to the Gauss facts
-  (`GaussOK`, discharged in M4riProofs/GaussOK.lean when present). The routine `_mzd_pluq_solve_left` itself is
-  modelled (`BMat.pluqSolveLeft`) but its universal theorem is not proved (`…_partial`).
+  (`GaussOK`, discharged in M4riProofs/GaussOK.lean). The routines `_mzd_pluq_solve_left` and `_mzd_solve_left`
+  themselves are mirrored (`BMat.pluqSolveLeft`, `SV.solveLeft` in M4ri/Glue.lean, tied word for word to the
+  implementation by the `glue_*` phase of the correspondence run, which instantiates them with the factorisation the
+  library produced) and proved for EVERY factorisation satisfying `IsPLUQ` (= accepted by `checkPLUQ`, the test applied
+  to every factorisation the library returns): verdict = solvability of the padded system, the returned rows solve it
+  (padding rows included), with the consistency check off a solution is returned whenever one exists. The Mathlib form
+  of solvability is `ML.solvable_iff_exists_matrix`.
 -/
 import M4riProofs.Checkers
 import M4riProofs.GaussOK
+import M4riProofs.Solve
+import M4riProofs.PleNaive
+import M4riProofs.MathlibSpec
 namespace M4ri.Props.C06
 open M4ri M4ri.BMat
 
@@ -15,6 +23,27 @@ theorem verdict_oracle {A B : BMat} (hB : B.WF) (hBr : B.nrows = max A.nrows A.n
     solvable A B = true ↔ ∃ X : BMat, X.WF ∧ X.nrows = A.ncols ∧ X.ncols = B.ncols ∧ (padRows A).mul X = B :=
   GOK.solvable_iff hB hBr
 
+-- `_mzd_solve_left` on top of any factorisation routine whose output is a PLUQ certificate of `A`: the verdict
+#check @M4ri.BMat.SV.solveLeft_verdict
+-- … and when 0 is returned the first `ncols A` rows of the overwritten `B` solve the padded system
+#check @M4ri.BMat.SV.solveLeft_solution
+#check @M4ri.BMat.SV.solveLeft_nocheck
+#check @M4ri.BMat.SV.pluqSolveLeft_verdict_solvable
+#check @M4ri.BMat.SV.pluqSolveLeft_solution
+#check @M4ri.BMat.SV.pluqSolveLeft_nocheck
+-- the certificate hypothesis is exactly what the checker tests on the library's factorisation
+#check @M4ri.BMat.PN.checkPLUQ_iff
+
+#check @M4ri.BMat.SV.solveLeft_verdict_iff
+#check @M4ri.BMat.SV.solveLeft_shaped
+#check @M4ri.BMat.SV.solveLeft_early_exit
+#check @M4ri.BMat.SV.pluqSolveLeft_verdict
+#check @M4ri.BMat.SV.pluqSolveLeft_eq_sol
+#check @M4ri.BMat.SV.pluqSolveLeft_shaped
+#check @M4ri.BMat.SV.pluqSolveLeft_ret_cases
+#check @M4ri.BMat.SV.Ctx.solvable_iff_consistent
+#check @M4ri.BMat.PN.checkPLUQ_pluqNaive
+#check @M4ri.BMat.ML.solvable_iff_exists_matrix
 #check @M4ri.BMat.solvable_iff_rankCert
 #check @M4ri.BMat.solvable_spec'
 #check @M4ri.BMat.solvable_eq
